@@ -68,6 +68,11 @@ type pkt struct {
 	pld    []byte
 	mac    string // oracle: hex of the MAC the server computes | "err" | "-" (not applicable)
 	ntp    string // oracle: ok | bad
+	// op srv.fwd only (forwarding with extension headers, fwdext.go)
+	fwdOp bool
+	zone  string // sw: the listener gets kernel rx timestamps | none: it does not (zone "lo")
+	tso   int    // 1 / 2: the sender put an option of the dispatcher's timestamp type first / last into the E2E extension
+	post  int    // 1: a further option follows the authenticator
 }
 
 var keyOrder = []string{"mode", "mock", "sock", "svc", "dscp", "hop", "tc", "sia", "dia", "st", "dt", "sa", "da",
@@ -78,10 +83,14 @@ func (p *pkt) op() string {
 	if p.hasAu {
 		au = lib.Hex(p.auth)
 	}
-	return fmt.Sprintf("srv.handle mode=%s mock=%d sock=%s svc=%d dscp=%d hop=%d tc=%d sia=%d dia=%d st=%d dt=%d sa=%s da=%s "+
-		"pt=%d path=%s rev=%s hbh=%d e2e=%d pre=%d auth=%s l4=%s scmp=%d:%d sp=%d dp=%d ulen=%s pld=%s mac=%s ntp=%s",
-		p.mode, p.mock, p.sock, p.svc, p.dscp, p.hop, p.tc, p.sia, p.dia, p.st, p.dt, lib.Hex(p.sa), lib.Hex(p.da),
-		p.pt, lib.Hex(p.path), p.rev, p.hbh, p.e2e, p.pre, au, p.l4, p.scmpT, p.scmpC, p.sp, p.dp, p.ulen, lib.Hex(p.pld), p.mac, p.ntp)
+	name, ext := "srv.handle", ""
+	if p.fwdOp {
+		name, ext = "srv.fwd", fmt.Sprintf(" zone=%s tso=%d post=%d", p.zone, p.tso, p.post)
+	}
+	return fmt.Sprintf("%s mode=%s mock=%d sock=%s svc=%d dscp=%d hop=%d tc=%d sia=%d dia=%d st=%d dt=%d sa=%s da=%s "+
+		"pt=%d path=%s rev=%s hbh=%d e2e=%d pre=%d auth=%s l4=%s scmp=%d:%d sp=%d dp=%d ulen=%s pld=%s mac=%s ntp=%s%s",
+		name, p.mode, p.mock, p.sock, p.svc, p.dscp, p.hop, p.tc, p.sia, p.dia, p.st, p.dt, lib.Hex(p.sa), lib.Hex(p.da),
+		p.pt, lib.Hex(p.path), p.rev, p.hbh, p.e2e, p.pre, au, p.l4, p.scmpT, p.scmpC, p.sp, p.dp, p.ulen, lib.Hex(p.pld), p.mac, p.ntp, ext)
 }
 
 func unhex(s string) ([]byte, bool) {
@@ -106,19 +115,23 @@ func isHexOr(s string, alts ...string) bool {
 }
 
 // parseOp parses the tokens after "srv.handle"; strict: every key exactly once, in order.
-func parseOp(toks []string) (*pkt, bool) {
-	if len(toks) != len(keyOrder) {
+func parseOp(toks []string, fwd bool) (*pkt, bool) {
+	keys := keyOrder
+	if fwd {
+		keys = append(append([]string{}, keyOrder...), "zone", "tso", "post")
+	}
+	if len(toks) != len(keys) {
 		return nil, false
 	}
 	kv := map[string]string{}
 	for i, t := range toks {
 		k, v, ok := strings.Cut(t, "=")
-		if !ok || k != keyOrder[i] {
+		if !ok || k != keys[i] {
 			return nil, false
 		}
 		kv[k] = v
 	}
-	p := &pkt{}
+	p := &pkt{fwdOp: fwd}
 	okAll := true
 	num := func(k string, lo, hi uint64) uint64 {
 		s := kv[k]
@@ -173,7 +186,11 @@ func parseOp(toks []string) (*pkt, bool) {
 			okAll = false
 		}
 	}
-	p.hbh = int(num("hbh", 0, 1))
+	if fwd {
+		p.hbh = int(num("hbh", 0, 40)) // srv.fwd: hop-by-hop option with hbh+1 data bytes
+	} else {
+		p.hbh = int(num("hbh", 0, 1))
+	}
 	p.e2e = int(num("e2e", 0, 1))
 	p.pre = int(num("pre", 0, 1))
 	if kv["auth"] == "none" {
@@ -208,7 +225,15 @@ func parseOp(toks []string) (*pkt, bool) {
 		okAll = false
 	}
 	p.ntp = enum("ntp", "ok", "bad")
+	if fwd {
+		p.zone = enum("zone", "sw", "none")
+		p.tso = int(num("tso", 0, 2))
+		p.post = int(num("post", 0, 1))
+	}
 	if !okAll {
+		return nil, false
+	}
+	if fwd && !fwdWellFormed(p) {
 		return nil, false
 	}
 	// well-formedness the wire format imposes (the model checks the same; else bad-op)
@@ -232,7 +257,19 @@ func parseOp(toks []string) (*pkt, bool) {
 	return p, true
 }
 
-const preOptType = slayers.OptionType(200)
+const (
+	preOptType  = slayers.OptionType(200)
+	hbhOptType  = slayers.OptionType(201)
+	postOptType = slayers.OptionType(202)
+)
+
+// hbhOptData: hbh=k stands for a hop-by-hop extension with the single option (201, k+1 bytes 0x09)
+func hbhOptData(k int) []byte { return bytes.Repeat([]byte{9}, k+1) }
+
+var (
+	// data of an option of the dispatcher's timestamp type that the *sender* put into the packet
+	senderTsData = []byte{0xf0, 0xf1, 0xf2, 0xf3, 0xf4, 0xf5, 0xf6, 0xf7, 0xf8, 0xf9, 0xfa, 0xfb, 0xfc, 0xfd, 0xfe, 0xff}
+)
 
 // layers builds the slayers values of the packet.
 func (p *pkt) layers() (*slayers.SCION, []gopacket.SerializableLayer, []byte) {
@@ -273,6 +310,9 @@ func (p *pkt) layers() (*slayers.SCION, []gopacket.SerializableLayer, []byte) {
 	if p.e2e == 1 {
 		e2e = &slayers.EndToEndExtn{}
 		e2e.NextHdr = l4t
+		if p.tso == 1 {
+			e2e.Options = append(e2e.Options, &slayers.EndToEndOption{OptType: scion.OptTypeTimestamp, OptData: senderTsData})
+		}
 		if p.pre == 1 {
 			e2e.Options = append(e2e.Options, &slayers.EndToEndOption{OptType: preOptType, OptData: []byte{1, 2, 3, 4}})
 		}
@@ -280,12 +320,18 @@ func (p *pkt) layers() (*slayers.SCION, []gopacket.SerializableLayer, []byte) {
 			e2e.Options = append(e2e.Options, &slayers.EndToEndOption{
 				OptType: slayers.OptTypeAuthenticator, OptData: p.auth, OptAlign: [2]uint8{4, 2}})
 		}
+		if p.post == 1 {
+			e2e.Options = append(e2e.Options, &slayers.EndToEndOption{OptType: postOptType, OptData: []byte{7, 7, 7, 7, 7}})
+		}
+		if p.tso == 2 {
+			e2e.Options = append(e2e.Options, &slayers.EndToEndOption{OptType: scion.OptTypeTimestamp, OptData: senderTsData})
+		}
 		next = slayers.End2EndClass
 	}
-	if p.hbh == 1 {
+	if p.hbh >= 1 {
 		h := &slayers.HopByHopExtn{}
 		h.NextHdr = next
-		h.Options = []*slayers.HopByHopOption{{OptType: slayers.OptionType(201), OptData: []byte{9, 9}}}
+		h.Options = []*slayers.HopByHopOption{{OptType: hbhOptType, OptData: hbhOptData(p.hbh)}}
 		scn.NextHdr = slayers.HopByHopClass
 		ls = append(ls, h)
 	} else {
